@@ -155,10 +155,11 @@ Definition recv_run (maxsz : Z) (present : bool) (msgs : list wmsg) : recv_end :
    (io.Copy / the "no data left" ReadFull), so it can only succeed after the handler has closed
    the pipe cleanly; it may however FAIL before the end of the stream when its reader fails
    (undecodable zstd data): [PutFailsEarly k e] = the error e is on putResult once the data of
-   k messages has been piped.  For the empty digest Put only probes its reader for one byte and
-   ignores a reader error: with undecodable zstd data it RETURNS NIL before the end of the stream,
-   [PutNilEarly k]; the handler treats a nil on putResult that arrives before its own io.EOF as an
-   internal error, so there the outcome depends on which channel the select takes. *)
+   k messages has been piped.  [PutNilEarly k]: a Put that RETURNS NIL before the end of the stream.
+   disk.Put never does (it reads to EOF before returning nil; for the empty digest too since /repo
+   0b4ddfa — before that its one-byte probe ignored a reader error); the handler has a branch for it
+   ("Unexpected early return"): a nil on putResult that arrives before its own io.EOF is an internal
+   error, so for such a Put the outcome would depend on which channel the select takes. *)
 Inductive put_beh := PutToEnd | PutFailsEarly (k : nat) (e : errc) | PutNilEarly (k : nat).
 Definition nil_early_free (b : put_beh) : bool := match b with PutNilEarly _ => false | _ => true end.
 
